@@ -52,6 +52,15 @@ def classify(d):
     if op in ('fx', 'fx_from_int', 'fx_from_float', 'fx_to_float'):
         iw = a[2] if op == 'fx' else a[1]
         if iw == 0 and obs == 'raise ValueError: negative shift count': return 'C12-23'
+    # CONVERT-CARRY: convert() of an object whose mantissa carried (m = 2p, left by reducePrecisionWithRounding) at the top of the subnormal range:
+    # the value is the smallest normal number, convert() classifies it as subnormal and packs a mantissa of 2^mw, which the field mask turns into 0
+    if op == 'fpnum_object_history' and isinstance(obs, list) and isinstance(exp, list) and len(obs) == len(exp) \
+            and any(st[0] == 'reducePrecisionWithRounding' for st in a[2]):
+        diffs = [(o, e) for o, e in zip(obs, exp) if o != e]
+        MIN_NORMAL = {'dp': 1 << 52, 'sp': 1 << 23, 'hp': 1 << 10}; SIGN = {'dp': 1 << 63, 'sp': 1 << 31, 'hp': 1 << 15}
+        if diffs and all(isinstance(o, list) and isinstance(e, list) and o[0] == 'convert' and e[0] == 'convert' and o[1] == e[1]
+                         and isinstance(o[2], int) and (e[2] & ~SIGN[e[1]]) == MIN_NORMAL[e[1]] and (o[2] & ~SIGN[o[1]]) == 0 for o, e in diffs):
+            return 'C12-CONVERT-CARRY'
     if op == 'reduce_exp' and isinstance(obs, str) and obs.startswith('raise NameError') and "'e_mask'" in obs: return 'C12-REDUCE-EXP'
     if op == 'fpnum_compare':
         xa, xb = ops.desc_x(a[0]), ops.desc_x(a[1])
@@ -193,6 +202,15 @@ def oracle_sweep(ctx, H, rng):
             if fmt == 'sp' and not math.isnan(x) and abs(x) < 3.4028235677973366e38:
                 sw.run('fph_stored', (xh,))
         ctx.log('%s encodings done: %d evaluations so far' % (fmt, sw.n))
+    # object histories: reads before and after in-place reductions on ONE object
+    for fmt in ('hp', 'sp', 'dp'):
+        for v in gen.tie_patterns(fmt, rng, 12 if q else 80):
+            for k in (0, 1, 3, 8, 20):
+                for red in ('reducePrecision', 'reducePrecisionWithRounding'):
+                    for script in ([['to_float'], [red, k], ['to_float'], ['convert', 'dp']],
+                                   [['convert', 'dp'], ['to_float'], [red, k + 2], ['convert', 'dp'], ['to_float'], [red, k], ['to_float']]):
+                        sw.run('fpnum_object_history', (fmt, v, script), ('objhist', fmt, red, k, len(script)))
+    ctx.log('object histories done: %d evaluations so far' % sw.n)
     # FPNum arithmetic on structured pairs
     pool = gen.arith_pool(rng, q)
     for da in pool:
